@@ -450,3 +450,69 @@ def unalias(func_node, expr, depth=3):
             return n
     import copy
     return src_of(Sub(depth).visit(copy.deepcopy(expr)))
+
+
+def boundary_splits(prog, pred, extra_source=None):
+    """Comparisons in the selected functions that split a value range between 2**k - 2 and 2**k - 1
+    (k = 8, 16, 24, 32): `x < 0xffff`, `x >= 0xffff`, `x <= 0xfffe`, `x > 0xfffe`, `x in range(0xffff)`.
+    The largest value of a 1/2/3/4-octet field then lands on the "does not fit" side.
+    Returns (functions scanned, [(FuncInfo | None, node, low_side_max)])."""
+    sites = []
+    nfun = 0
+
+    def scan(fnode, fold, finfo):
+        for n in ast.walk(fnode):
+            if not (isinstance(n, ast.Compare) and len(n.ops) == 1):
+                continue
+            op = n.ops[0]
+            left, right = n.left, n.comparators[0]
+            split = None
+            if isinstance(op, (ast.In, ast.NotIn)) and isinstance(right, ast.Call) and src_of(right.func) == 'range' \
+                    and right.args:
+                c = fold(right.args[-1] if len(right.args) <= 2 else right.args[1])
+                if isinstance(c, int):
+                    split = c - 1
+            else:
+                lv, rv = fold(left), fold(right)
+                if isinstance(rv, int) and not isinstance(rv, bool) and not isinstance(lv, int):
+                    c, o = rv, type(op)
+                elif isinstance(lv, int) and not isinstance(lv, bool) and not isinstance(rv, int):
+                    c = lv
+                    o = {ast.Lt: ast.Gt, ast.LtE: ast.GtE, ast.Gt: ast.Lt, ast.GtE: ast.LtE}.get(type(op))
+                else:
+                    continue
+                if o in (ast.Lt, ast.GtE):
+                    split = c - 1
+                elif o in (ast.LtE, ast.Gt):
+                    split = c
+            if split is not None and split + 1 in _FIELD_MAX:
+                sites.append((finfo, n, split))
+    for f in prog.all_functions():
+        if pred(f):
+            nfun += 1
+            scan(f.node, lambda e, f=f: prog.try_fold(e, f.module, f.cls), f)
+    if extra_source is not None:
+        def cf(e):
+            try:
+                return ast.literal_eval(e)
+            except Exception:
+                return None
+        scan(ast.parse(extra_source), cf, None)
+    return nfun, sites
+
+
+def report_boundary_splits(prog, rep, rule, pred):
+    """Shared reporting of boundary_splits; the detector must fire on its built-in witness."""
+    nf, sites = boundary_splits(prog, pred, extra_source=BOUNDARY_WITNESS)
+    if not [x for x in sites if x[0] is None]:
+        raise AnalysisError('%s: the boundary detector does not fire on its built-in witness' % rule)
+    real = [x for x in sites if x[0] is not None]
+    for fn, c, split in real:
+        key = 'boundary:%s:%s' % (fn.qualname, src_of(c))
+        rep.bad(rule, key, file=fn.file, line=c.lineno, func=fn.qualname,
+                found='%s separates %d from %d: the largest value of a %d-octet field is treated as not fitting, '
+                      'while the decoder yields it' % (src_of(c), split, split + 1, _FIELD_MAX[split + 1]),
+                expected='the boundary of an n-octet field lies between 2**(8n) - 1 and 2**(8n)', key=key)
+    if not real:
+        rep.ok(rule, 'field-boundaries', found='%d functions scanned, witness fires' % nf)
+    return nf
